@@ -673,6 +673,12 @@ class PartialTask(Task[P, R]):
         """
         return self.task.options(**task_options_update).partial(*self.args, **self.kwargs)
 
+    def update_context(self, context: dict = {}, **kwargs: Any) -> "PartialTask[..., R]":
+        """
+        Update the context variables for the task, keeping the overrides of the wrapped task.
+        """
+        return self.task.update_context(context, **kwargs).partial(*self.args, **self.kwargs)
+
     @overload
     def get_task_option(self, option_name: str) -> Optional[Any]: ...
 
